@@ -28,10 +28,13 @@ type Query struct {
 	Script  string
 	ScriptG string
 	Hints   map[string][]*Term
+	Names   []string
 	MNames  []string
 }
 
 type Oblig struct {
+	X       *Exec
+	Expr    *SExpr
 	BV      bool
 	Name    string
 	Fn      string
@@ -166,6 +169,9 @@ type Exec struct {
 	topFrame *Frame
 	caseName string
 	nret     int
+	mterms   []*Term
+	mnames   []string
+	mtermsFor *Frame
 }
 
 type effects struct {
